@@ -2,14 +2,14 @@ SPECIFICATION Spec
 CONSTANTS
   Configs <- C05ThoroughConfigs
   StartTimes <- T3
-  D1s <- D0
+  D1s <- D01
   Svcs <- C05ThoroughSvcs
   D2s <- D01
   Weights <- W12
   ErrKinds <- ErrApi
   MaxErrors = 1
   PoissonIncs <- Inc013
-  ExtAt <- ExtNone
+  ExtAt <- Ext2
   TimerBeforeRampUp = TRUE
   LatencyEndsAtResponse = TRUE
 VIEW view
